@@ -67,7 +67,7 @@ func C22(c *core.Ctx) {
 		"distinct = distinct (mode, goroutines, keys) configurations with a non-empty concurrent overlap")
 	r := c.Rand("c22")
 	// ---- sequential
-	for i := 0; i < c.Pick(400, 6000); i++ {
+	for i := 0; i < c.Pick(2000, 6000); i++ {
 		s := skl.NewSkiplist(1 << 20)
 		ref := map[string]KV{}
 		users := gen.KeySet(r, 1+r.Intn(20), 8)
@@ -128,7 +128,7 @@ func C22(c *core.Ctx) {
 
 	// ---- concurrent
 	var clock atomic.Int64
-	histories := c.Pick(150, 2500)
+	histories := c.Pick(600, 2500)
 	var illegal, unknown int
 	for h := 0; h < histories; h++ {
 		nG := 6 + r.Intn(7)
